@@ -84,7 +84,13 @@ POOL: List[Tuple[str, bytes]] = [
     ("eod-lookalikes", b"a~>b>c<~ 80 \x80\x80 z"),
     ("lownibble0", b"\x12\x30"),
 ]
-POOL_THOROUGH = [("lcg6000", _lcg(6000))]
+def _big70k() -> bytes:
+    """~70 kB: low-redundancy stretches (LZW table filled and reset many times), long runs, text; crosses many 4096 boundaries."""
+    return (_lcg(40000) + b"\x00" * 5000 + b"\x07" * 300 + b"ab" * 700 + bytes(range(256)) * 4 + _phrases(12000) + _lcg(10000, 99) + b"\r\nendstream\r\n" + b"\xff" * 129)
+
+
+POOL_THOROUGH = [("lcg6000", _lcg(6000)), ("big70k", _big70k())]
+BIG = 8192  # payloads above this size only go through chains made of Flate/LZW/RunLength
 SMALL: List[bytes] = [bytes(t) for n in range(1, 4) for t in itertools.product([0x00, 0x0A, 0x0D, 0x7A, 0xFF], repeat=n)] + [
     bytes(t) for n in (4, 5) for t in itertools.product([0x00, 0xFF], repeat=n)
 ] + [b"\x00\x00\x00\x00\x00\x00\x00\x00", b"\x00\x00\x00\x00a", b"\xff\xff\xff\xff\xff\xff\xff"]
@@ -135,7 +141,7 @@ def options(f: str, p: bytes) -> List[Dict[str, Any]]:
     if f == "RL":
         return [{"strategy": s} for s in RF.RL_STRATEGIES]
     if f == "LZW":
-        return [{"clears": c} for c in RF.LZW_CLEARS]
+        return [{"clears": c, "early": e, "early_explicit": x} for c in RF.LZW_CLEARS for (e, x) in ((1, False), (1, True), (0, True))]
     if f == "Fl":
         return [{"level": l} for l in (6, 0, 1, 9)]
     raise KeyError(f)
@@ -145,7 +151,7 @@ DEFAULT_OPTS = {
     "AHx": {"case": "upper", "ws": "none", "every": 2, "tail_ws": False, "odd": False},
     "A85": {"ws": "none", "every": 5, "lead_ws": False},
     "RL": {"strategy": "greedy"},
-    "LZW": {"clears": "start"},
+    "LZW": {"clears": "start", "early": 1, "early_explicit": False},
     "Fl": {"level": 6},
 }
 # presets rotated over the chain family so that chained data is not always in the plainest form
@@ -153,7 +159,7 @@ PRESETS = {
     "AHx": [DEFAULT_OPTS["AHx"], {"case": "lower", "ws": "LF", "every": 7, "tail_ws": True, "odd": False}, {"case": "mixed", "ws": "SP", "every": 1, "tail_ws": False, "odd": False}],
     "A85": [DEFAULT_OPTS["A85"], {"ws": "LF", "every": 64, "lead_ws": False}, {"ws": "CRLF", "every": 5, "lead_ws": True}],
     "RL": [{"strategy": s} for s in ("greedy", "run3", "split")],
-    "LZW": [{"clears": c} for c in RF.LZW_CLEARS],
+    "LZW": [{"clears": c, "early": 1, "early_explicit": False} for c in RF.LZW_CLEARS],
     "Fl": [{"level": l} for l in (6, 0, 9)],
 }
 
@@ -167,7 +173,7 @@ def encode(f: str, data: bytes, o: Dict[str, Any]) -> bytes:
     if f == "RL":
         return RF.rl_encode(data, o["strategy"])
     if f == "LZW":
-        return RF.lzw_encode(data, o["clears"])
+        return RF.lzw_encode(data, o["clears"], o.get("early", 1))
     if f == "Fl":
         return RF.flate_encode(data, o["level"])
     raise KeyError(f)
@@ -180,6 +186,28 @@ REF_DECODE = {
     "LZW": RF.lzw_decode_ref,
     "Fl": zlib.decompress,
 }
+
+
+def ref_decode(f: str, enc: bytes, o: Dict[str, Any]) -> bytes:
+    if f == "LZW":
+        return RF.lzw_decode_ref(enc, o.get("early", 1))
+    return REF_DECODE[f](enc)
+
+
+def filter_parms(f: str, o: Dict[str, Any]) -> Optional[Dict[str, Any]]:
+    """DecodeParms entries that belong to the filter itself (not to a predictor)."""
+    if f == "LZW" and (o.get("early", 1) == 0 or o.get("early_explicit")):
+        return {"EarlyChange": o.get("early", 1)}
+    return None
+
+
+def impl_decode(f: str, enc: bytes, o: Dict[str, Any]):
+    """The decoder function called directly; through PDFStream.decode when the encoding needs filter parameters."""
+    fp = filter_parms(f, o)
+    if fp is None:
+        return guarded(IMPL_DECODE[f], enc)
+    return impl_stage(f, enc, fp)
+
 IMPL_DECODE = {"AHx": asciihexdecode, "A85": ascii85decode, "RL": rldecode, "LZW": lzwdecode, "Fl": zlib.decompress}
 
 
@@ -234,6 +262,17 @@ class Stage:
     __slots__ = ("f", "inp", "after_filter", "out", "pred", "opts")
 
 
+def stage_parms(st: "Stage") -> Optional[Dict[str, Any]]:
+    """DecodeParms dictionary of one stage: filter parameters (EarlyChange) plus predictor parameters."""
+    d: Dict[str, Any] = {}
+    fp = filter_parms(st.f, st.opts)
+    if fp:
+        d.update(fp)
+    if st.pred:
+        d.update(st.pred.parms())
+    return d or None
+
+
 def encode_chain(chain: Sequence[str], payload: bytes, opts: Sequence[Dict[str, Any]], preds: Sequence[Optional[Pred]]) -> Tuple[bytes, List[Stage]]:
     """Filter array [f1..fn] means: decoding applies f1 first, so encoding applies fn first."""
     cur = payload
@@ -246,7 +285,7 @@ def encode_chain(chain: Sequence[str], payload: bytes, opts: Sequence[Dict[str, 
         st.after_filter = pr.apply(cur) if pr else cur
         st.inp = encode(chain[i], st.after_filter, opts[i])
         # tie the encoder to the reference decoder on exactly this datum
-        assert REF_DECODE[chain[i]](st.inp) == st.after_filter, ("reference encoder/decoder disagree", chain[i], opts[i])
+        assert ref_decode(chain[i], st.inp, opts[i]) == st.after_filter, ("reference encoder/decoder disagree", chain[i], opts[i])
         if pr:
             p = pr
             back = RF.tiff_unpredict_ref(st.after_filter, p.colors, p.columns) if p.kind == "tiff" else RF.png_unpredict_ref(st.after_filter, p.colors, p.columns, p.bits)
@@ -302,7 +341,7 @@ class DocB:
 def add_stream(db: DocB, chain: Sequence[str], stages: List[Stage], data: bytes, c: Dict[str, Any]) -> int:
     """Write one stream object (and its satellite objects) according to container choices ``c``; returns its number."""
     names = [Name(FULL[f] if c["names"] == "full" else f) for f in chain]
-    parms = [(st.pred.parms() if st.pred else None) for st in stages]
+    parms = [stage_parms(st) for st in stages]
     num = db.reserve()
     before: List[Tuple[int, bytes]] = []
     after: List[Tuple[int, bytes]] = []
@@ -457,11 +496,11 @@ def png_class(p: Pred, obs) -> str:
 def diagnose_stages(stages: List[Stage]) -> Optional[str]:
     """First decode stage that the implementation gets wrong on the reference intermediate data."""
     for st in stages:
-        r0 = impl_stage(st.f, st.inp, None)
+        r0 = impl_stage(st.f, st.inp, filter_parms(st.f, st.opts))
         if r0 != ("ok", st.after_filter):
             return f"{st.f}-decode:" + opt_cause(st.f, st.after_filter, st.opts)
         if st.pred:
-            r1 = impl_stage(st.f, st.inp, st.pred.parms())
+            r1 = impl_stage(st.f, st.inp, stage_parms(st))
             if r1 != ("ok", st.out):
                 return png_class(st.pred, r1) if st.pred.kind == "png" else "tiff-predictor:colors=%d" % st.pred.colors
     return None
@@ -470,11 +509,11 @@ def diagnose_stages(stages: List[Stage]) -> Optional[str]:
 def opt_cause(f: str, data: bytes, o: Dict[str, Any]) -> str:
     """Name the encoder option that makes the direct decoder fail on ``data`` (or 'payload' if the plainest encoding fails)."""
     base = DEFAULT_OPTS[f]
-    if guarded(IMPL_DECODE[f], encode(f, data, base)) != ("ok", data):
+    if impl_decode(f, encode(f, data, base), base) != ("ok", data):
         return "plain-encoding"
     if o.get("ws", "none") not in ("none", "LF"):
         # same layout with LF as the white-space character: is the *kind* of white space the cause?
-        if guarded(IMPL_DECODE[f], encode(f, data, dict(o, ws="LF"))) == ("ok", data):
+        if impl_decode(f, encode(f, data, dict(o, ws="LF")), o) == ("ok", data):
             return "ws=" + o["ws"]
     causes = []
     for k, v in o.items():
@@ -485,11 +524,16 @@ def opt_cause(f: str, data: bytes, o: Dict[str, Any]) -> str:
                 o1["every"] = o.get("every", base.get("every"))
             if k == "every" and o.get("ws", "none") == "none":
                 continue
-            if guarded(IMPL_DECODE[f], encode(f, data, o1)) != ("ok", data):
-                causes.append(f"{k}={v}" if k != "every" else "ws-position")
+            if k == "early":
+                o1["early_explicit"] = True
+            if impl_decode(f, encode(f, data, o1), o1) != ("ok", data):
+                causes.append("ws-position" if k == "every" else ("EarlyChange=%s" % v if k == "early" else f"{k}={v}"))
     if causes:
         return "+".join(sorted(set(causes)))
-    return "interaction:" + "+".join(f"{k}={v}" for k, v in sorted(o.items()) if v != base[k])
+    diff = [f"{k}={v}" for k, v in sorted(o.items()) if v != base.get(k)]
+    if not diff:
+        return "decode-dispatch"  # the decoder function is right on this datum, PDFStream.decode is not
+    return "interaction:" + "+".join(diff)
 
 
 # --------------------------------------------------------------------------- families
@@ -499,12 +543,15 @@ BOUNDS = {
 }
 PNG_GEOMS = [(c, w, b) for b in (8, 1) for c in (1, 3, 4) for w in (1, 2, 3, 5, 8, 9, 16)]
 ROW_ASSIGN: List[Tuple[int, ...]] = [t for n in (1, 2, 3) for t in itertools.product(range(5), repeat=n)]  # 155
-TIFF_GEOMS = [(c, w) for c in (1, 2, 3, 4) for w in (1, 2, 3, 5, 8)]
+TIFF_GEOMS = [(c, w) for c in (1, 2, 3, 4) for w in (1, 2, 3, 5, 8, 16)]
+TIFF_ROWS = (1, 2, 3, 4, 7)
 CONTAINER_BUFSIZ = (4096, 7, 1)  # 7 splits 'stream\r\n' between CR and LF
-CONTAINER_CHAINS: List[Tuple[Tuple[str, ...], Optional[int]]] = [
-    ((), None), (("Fl",), None), (("AHx",), None), (("A85",), None), (("LZW",), None), (("RL",), None),
-    (("A85", "Fl"), None), (("Fl",), 0), (("AHx", "LZW", "RL"), 1),
+# (chain, position of a PNG predictor or None, position of an LZW stage written with /EarlyChange 0 or None)
+CONTAINER_CHAINS: List[Tuple[Tuple[str, ...], Optional[int], Optional[int]]] = [
+    ((), None, None), (("Fl",), None, None), (("AHx",), None, None), (("A85",), None, None), (("LZW",), None, None), (("RL",), None, None),
+    (("A85", "Fl"), None, None), (("Fl",), 0, None), (("AHx", "LZW", "RL"), 1, None), (("LZW",), None, 0),
 ]
+CONTAINER_BIG = (0, 1, 5)  # thorough: the 70 kB payload through these container chains, one deviation
 
 META = {
     "rule": (
@@ -516,7 +563,9 @@ META = {
         "forms, names, key order, separator before endobj) for 9 chains x 8 delimiter-hostile payloads, each file read with BUFSIZ 4096, 7 "
         "(splits 'stream' CR|LF) and 1; paeth: all (left, above, upper-left) triples over 8 boundary values, 1 and 2 colours; png: 42 geometries (colours "
         "1,3,4 x columns 1,2,3,5,8,9,16 x bits 8,1) x all 155 assignments of row filter types 0-4 to <=3 rows, directly and through a "
-        "Flate (thorough: also LZW) stream; tiff: colours 1-4 x columns 1,2,3,5,8 x 1-3 rows.  A case = one encoded datum or stream "
+        "Flate (thorough: also LZW) stream; tiff: colours 1-4 x columns 1,2,3,5,8,16 x 1,2,3,4,7 rows (and 2x2, 3x3, 4x4 geometries inside chains).  LZW data is written with "
+        "EarlyChange 1 (implicit and explicit) and EarlyChange 0 in the direct, chain and container families.  thorough adds a 6000-byte and a "
+        "70 kB payload (the latter through chains of Flate/LZW/RunLength only and three container chains).  A case = one encoded datum or stream "
         "decoded and compared with the payload; non-trivial = payload non-empty; states/transitions = nodes/edges of the enumeration "
         "trees (choice tree for container, product trees elsewhere); traces = decoded-and-compared executions; outcome = hash of the "
         "bytes/exception the implementation returned."
@@ -524,10 +573,10 @@ META = {
     "bound": {k: str(v) for k, v in BOUNDS.items()},
     "assumptions": [
         "the reference encoders are correct: each encoded datum is decoded back by an independent spec-literal decoder (or zlib/base64/binascii) inside the run, a mismatch aborts the run",
-        "LZW is exercised with EarlyChange 1 (the default) only; the EarlyChange 0 variant is not generated",
+        "the abbreviated dictionary keys /F and /DP are not generated: ISO 32000-1 allows them only in inline images (in a stream dictionary /F is a file specification)",
         "encoded data always carries its EOD marker ('>', '~>', 128, 257); streams always carry a correct Length",
         "predictor payloads are whole rows; TIFF predictor only with 8-bit components (the only supported depth); PNG with 8 and 1 bit",
-        "payloads longer than 6000 bytes and chains longer than 3 are not explored; Crypt/DCT/CCITT/JBIG2/JPX filters are outside the property",
+        "payloads longer than 70 kB and chains longer than 3 are not explored; Crypt/DCT/CCITT/JBIG2/JPX filters are outside the property",
         "PDFDocument opening of the generated files (xref table, trailer) is trusted as plumbing",
     ],
 }
@@ -551,6 +600,8 @@ def shards(tier):
     for ci in range(len(CONTAINER_CHAINS)):
         for pn in CONTAINER_PAYLOADS:
             out.append(("container", ci, pn))
+        if tier == "thorough" and ci in CONTAINER_BIG:
+            out.append(("container", ci, "big70k"))
     for gi in range(len(PNG_GEOMS)):
         out.append(("png", gi))
     out.append(("tiff",))
@@ -585,14 +636,14 @@ def run_direct(shard, tier, st):
         st.transitions += 1 + len(opts)
         for o in opts:
             enc = encode(f, p, o)
-            assert REF_DECODE[f](enc) == p, ("reference encoder/decoder disagree", f, o)
-            r = guarded(dec, enc)
+            assert ref_decode(f, enc, o) == p, ("reference encoder/decoder disagree", f, o)
+            r = impl_decode(f, enc, o)
             st.case(None, nontrivial=bool(p), outcome=h64(r))
             st.traces += 1
             if r != ("ok", p):
                 sig = f"{f}-decode:" + opt_cause(f, p, o)
                 report(st, sig, {"family": "direct", "filter": f, "encoded": enc, "options": o, "payload": p}, p, r,
-                       f"{dec.__name__}({_short(enc)}) gives {r[0]}:{_short(r[1]) if r[0]=='ok' else r[1]}, payload {_short(p)}")
+                       f"{dec.__name__ if filter_parms(f, o) is None else 'PDFStream(Filter=' + FULL[f] + ', DecodeParms=' + repr(filter_parms(f, o)) + ').get_data'}({_short(enc)}) gives {r[0]}:{_short(r[1]) if r[0]=='ok' else r[1]}, payload {_short(p)}")
     st.sample({"family": "direct", "filter": f, "payload": payloads[-1][:32], "encoded": encode(f, payloads[-1], options(f, payloads[-1])[-1])[:64]})
 
 
@@ -640,6 +691,10 @@ def fit_pred(kind: str, payload: bytes, idx: int) -> Optional[Pred]:
         return Pred("png", 2, 2, 8, rows=[(idx + 2 * i + 1) % 5 for i in range(5)], explicit=True)
     if kind == "tiff4" and n % 4 == 0:
         return Pred("tiff", 2, 2, 8, explicit=bool(idx % 2))
+    if kind == "tiff16" and n % 16 == 0:
+        return Pred("tiff", 4, 4, 8, explicit=True)
+    if kind == "tiff9" and n % 9 == 0:
+        return Pred("tiff", 3, 3, 8, explicit=True)
     return None
 
 
@@ -651,21 +706,30 @@ def run_chain(shard, tier, st):
     entries = []
     st.states += 1
     for pi, (pname, payload) in enumerate(pool(tier)):
-        variants: List[Tuple[str, List[Any]]] = [("nopred", [None] * len(chain))]
+        if len(payload) > BIG and not set(chain) <= {"Fl", "LZW", "RL"}:
+            continue
+        nop: List[Any] = [None] * len(chain)
+        variants: List[Tuple[str, List[Any], Optional[int]]] = [("nopred", nop, None)]
         for pos, f in enumerate(chain):
             if f in ("Fl", "LZW"):
-                for kind in ("png1", "png4", "tiff4"):
+                for kind in ("png1", "png4", "tiff4", "tiff16", "tiff9"):
                     if len(payload) <= 1024:
                         pl: List[Any] = [None] * len(chain)
                         pl[pos] = (lambda d, kind=kind, k=ci + pi + pos: fit_pred(kind, d, k) if len(d) <= 4096 else None)
-                        variants.append((f"{kind}@{pos}", pl))
-        for vi, (vname, preds) in enumerate(variants):
+                        variants.append((f"{kind}@{pos}", pl, None))
+                        if f == "LZW" and kind == "png1":
+                            variants.append((f"early0+{kind}@{pos}", pl, pos))
+            if f == "LZW":
+                variants.append((f"early0@{pos}", nop, pos))
+        for vi, (vname, preds, epos) in enumerate(variants):
             for names in ("full", "abbr"):
                 if vname != "nopred" and names == "abbr" and (ci + pi) % 2:
                     continue
                 opts = [PRESETS[f][(ci + pi + k + vi) % len(PRESETS[f])] for k, f in enumerate(chain)]
+                if epos is not None:
+                    opts[epos] = dict(opts[epos], early=0, early_explicit=True)
                 data, stages = encode_chain(chain, payload, opts, preds)
-                if vname != "nopred" and not any(sg.pred for sg in stages):
+                if "@" in vname and "early0@" not in vname and not any(sg.pred for sg in stages):
                     continue  # the predictor geometry does not divide the datum at that stage
                 c = dict(DEFAULT_CONTAINER)
                 c["names"] = names
@@ -719,15 +783,17 @@ def container_program(x: Chooser, nfilters: int, need_parms: bool) -> Dict[str, 
 
 def run_container(shard, tier, st):
     ci, pname = shard[1], shard[2]
-    chain, predpos = CONTAINER_CHAINS[ci]
+    chain, predpos, epos = CONTAINER_CHAINS[ci]
     payload = payload_by_name(pname)
     preds: List[Optional[Pred]] = [None] * len(chain)
     if predpos is not None and payload:
         preds[predpos] = Pred("png", 1, 1, 8, rows=[4, 2, 1, 3, 0], explicit=True)
     opts = [DEFAULT_OPTS[f] for f in chain]
+    if epos is not None:
+        opts[epos] = dict(opts[epos], early=0, early_explicit=True)
     data, stages = encode_chain(chain, payload, opts, preds)
-    need = any(p is not None for p in preds)
-    bound = BOUNDS[tier]["container_dev"]
+    need = any(stage_parms(sg) is not None for sg in stages)
+    bound = 1 if len(payload) > BIG else BOUNDS[tier]["container_dev"]
     ex = ChoiceExplorer(lambda x: container_program(x, len(chain), need), mode="dev", bound=bound)
     batch: List[Dict[str, Any]] = []
     db = DocB(pad=ci)
@@ -789,7 +855,7 @@ def run_container(shard, tier, st):
         num = add_stream(db, chain, stages, data, c)
         batch.append({"num": num, "payload": payload, "chain": chain, "stages": stages, "data": data, "container": {k: v for k, v in c.items() if k != "_feats"},
                       "family": "container", "container_cause": cause_for(feats),
-                      "desc": {"chain": list(chain), "payload": pname, "pred": predpos, "container": feats}})
+                      "desc": {"chain": list(chain), "payload": pname, "pred": predpos, "early0": epos, "container": feats}})
         if len(batch) >= 25:
             flush()
     flush()
@@ -841,7 +907,7 @@ def run_tiff(shard, tier, st):
     entries = []
     st.states += 1
     for colors, columns in TIFF_GEOMS:
-        for nrows in (1, 2, 3):
+        for nrows in TIFF_ROWS:
             for pat in (0, 1):
                 payload = _pattern(colors * columns * nrows, pat)
                 pr = Pred("tiff", colors, columns, 8, explicit=bool((colors + columns + nrows) % 2))
@@ -915,7 +981,7 @@ def replay(case):
     p = case["payload"]
     fam = case["family"]
     if fam == "direct":
-        r = guarded(IMPL_DECODE[case["filter"]], case["encoded"])
+        r = impl_decode(case["filter"], case["encoded"], case.get("options") or {})
     elif fam == "png-direct":
         r = guarded(apply_png_predictor, 15, case["colors"], case["columns"], case["bits"], case["encoded"])
     elif fam == "tiff-direct":
